@@ -506,7 +506,13 @@ func hashUF(fr *frame, name string, in []value) value {
 		// (stated on the first 27 bytes, the part the state-key construction keeps:
 		// the JAM state trie relies on exactly this)
 		top := func(t *Term) *Term { return mkExtract(t, 255, 40) }
-		for _, prev := range ex.ufApps[name] {
+		prevApps := ex.ufApps[name]
+		if strings.HasPrefix(name, "Hz_") || len(prevApps) > 24 {
+			// hashes passed in by a harness (zzvt.Hash32) are only ever compared with the
+			// oracle's application of the same symbol; and the instance set is capped
+			prevApps = nil
+		}
+		for _, prev := range prevApps {
 			switch {
 			case prev.arg.w != arg.w:
 				// inputs of different lengths are different inputs
@@ -517,7 +523,9 @@ func hashUF(fr *frame, name string, in []value) value {
 			}
 		}
 		ex.ufApps[name] = append(ex.ufApps[name], ufApp{arg: arg, app: app})
-		ex.stubs["assumption: "+name+" is collision-free on the inputs hashed on a path"]++
+		if !strings.HasPrefix(name, "Hz_") {
+			ex.stubs["assumption: "+name+" is collision-free (first 27 bytes) on the inputs hashed on a path (<= 25 instances)"]++
+		}
 	}
 	out := make(array, 32)
 	for i := 0; i < 32; i++ {
